@@ -10,6 +10,10 @@ NOT_BUILT = "rules designed (DESIGN.md sections 3-4) but not built yet; not clai
 
 # property -> (technique, level text, level note, design ref)
 CLAIMED = {
+ "C06": ("SSA backward slicing of allocation sizes to their leaves with dominating-charge and must-edge guard checks; path-sensitive value-numbered release/acquire balance with deferred calls replayed; constructor/destructor pairing by size, count field and guarding flags; who-may-call rule",
+         "Structural necessary conditions: computed-size allocations and fresh program-sized strings are charged first or bounded by held memory; no path releases an amount more often than it acquired it; destructors mirror constructors; table growth is charged. Each violation lets a program hold uncharged memory or crash/underflow the counter.",
+         "Trusted: go/ssa, dominators, tables confirmed by reading. Not decided: monotonicity in M, the heap-to-M constant, hidden stdlib allocations, over-accounting.",
+         "DESIGN.md 3 (R-ALLOC, R-NEWSTR, R-RELEASE), 4 (C06)"),
  "C05": ("loop classification on the SSA CFG (metering-call-on-every-cycle via must-call summaries, induction/limit analysis), SCCs of the call graph minus metering functions, typed recover inventory with reachability to TerminateContext, def-use checks of the forwarding chain",
          "Structural necessary conditions: every loop and call cycle reachable from cpu-limited code is metered, bounded by held memory/constants, pre-charged or table-listed; named dispatch points charge first; budgets are plumbed to the quota; termination cannot be kept by any recover frame other than the designated owners, and is forwarded out of coroutines. Breaking any of these makes some operation unmetered or lets Lua code survive a kill.",
          "Trusted: go/ssa CFGs, VTA call graph, the loop/recursion tables (reasons confirmed by reading). Not decided: exact deterministic counts, 'killed exactly for L <= u', wall-clock bounds.",
